@@ -1,2 +1,3 @@
 -- Certificates on data regenerated from /repo.
 import XonshCerts.Basic
+import XonshCerts.Regex
